@@ -83,6 +83,16 @@ def names_ok(cfg):
             red_name(cfg) in VALID["reduction"], match_name(cfg) in VALID["matching"])
 
 
+IMG_MODES = ("hw", "hw1", "hw3", "float", "1hw1")     # what sio frames look like (H,W,C uint8) and the branches of
+                                                      # FlowShiftTracker._preprocess_imgs (float -> uint8, 4-D squeeze)
+
+
+def image_as(g, mode):
+    np = impl()["np"]
+    return {"hw": g, "hw1": g[:, :, None], "hw3": np.repeat(g[:, :, None], 3, axis=2),
+            "float": g.astype("float32"), "1hw1": g[None, :, :, None]}[mode or "hw"]
+
+
 def frame_image(fr, blank=False):
     """Synthetic uint8 frame for the optical-flow tracker: a Gaussian blob at every (finite, in-frame) keypoint
     on a faint fixed texture; `blank` = a uniform frame (Lucas-Kanade then finds no point)."""
@@ -161,7 +171,8 @@ def new_tracker(cfg):
         window_size=cfg["window"], instance_score_threshold=float(Fraction(cfg["threshold"])),
         candidates_method="local_queues" if cfg["lq"] else "fixed_window",
         features=feat, scoring_method=scoring, scoring_reduction=red_name(cfg),
-        track_matching_method=match_name(cfg), max_tracks=cfg.get("max_tracks"), use_flow=bool(cfg.get("flow")))
+        track_matching_method=match_name(cfg), max_tracks=cfg.get("max_tracks"), use_flow=bool(cfg.get("flow")),
+        of_img_scale=float(cfg.get("img_scale", 1.0)))
     if cfg.get("flow"):
         # from_config returns a FlowShiftTracker proper; re-wrap its fields in the recording subclass
         import attrs
@@ -211,7 +222,8 @@ def run_impl(cfg, hist):
         rec = {"n_tracks_before": len(t.candidate.current_tracks), "stale": stale_tracks(t, cfg), "insts": insts}
         with warnings.catch_warnings():
             warnings.simplefilter("ignore")
-            image = frame_image(fr, blank=fi in cfg.get("blank", ())) if cfg.get("flow") else None
+            image = (image_as(frame_image(fr, blank=fi in cfg.get("blank", ())), cfg.get("img_mode"))
+                     if cfg.get("flow") else None)
             try:
                 res = t.track(insts, fi, image)
                 rec["out"] = res
